@@ -636,8 +636,19 @@ def synthetic_definitions():
     below is computed from this data only (an independent reading of the definition format)."""
     INF = float("inf")
     P = lambda name, typ, versions, **kw: dict(kind="prim", name=name, type=typ, versions=versions, **kw)
+    tp = {"name": "TopicPartitions", "versions": (0, INF), "fields": [P("TopicName", "string", (0, INF)), P("PartitionIndex", "int32", (0, INF))]}
+    asg = {"name": "Assignment", "versions": (0, INF), "fields": [dict(kind="carray", name="TopicPartitions", struct=tp, versions=(0, INF))]}
     return [{
+        "name": "DemoGroupResponse", "type": "response", "apiKey": 98, "validVersions": (0, 1), "flexibleVersions": (1, INF),
+        "fields": [
+            dict(kind="array", name="Members", type="Member", versions=(0, INF), fields=[
+                P("MemberId", "string", (0, INF)),
+                dict(kind="cstruct", name="Assignment", struct=asg, versions=(0, INF)),
+                dict(kind="cstruct", name="TargetAssignment", struct=asg, versions=(1, INF)),
+            ]),
+        ]}, {
         "name": "DemoThingRequest", "type": "request", "apiKey": 99, "validVersions": (0, 3), "flexibleVersions": (2, INF),
+        "extra": {"latestVersionUnstable": True},  # a key of the upstream format kio does not interpret: every declared version is generated
         "fields": [
             P("TopicName", "string", (0, INF)),
             P("RetryCount", "int32", (0, INF), default="3"),
@@ -673,7 +684,8 @@ def generated_modules(ctx):
     gs, pm = _mod(ctx, "codegen.generate_schema"), _mod(ctx, "codegen.parser")
     VR = _mod(ctx, "codegen.versions").env.vars.get("VersionRange")
     gm = gs.env.vars.get("generate_models")
-    need = {n: pm.env.vars.get(n) for n in ("MessageSchema", "PrimitiveField", "EntityArrayField", "EntityField", "EntityType", "EntityArrayType")}
+    need = {n: pm.env.vars.get(n) for n in ("MessageSchema", "PrimitiveField", "EntityArrayField", "EntityField", "EntityType", "EntityArrayType",
+                                            "CommonStruct", "CommonStructField", "CommonStructArrayField", "CommonStructType", "CommonStructArrayType")}
     Prim, members = primitive_members(ctx)
     if not isinstance(gm, FuncV) or not all(isinstance(v, ClassV) for v in need.values()) or not isinstance(VR, ClassV):
         raise AnalysisError("anchor vanished: codegen.generate_schema.generate_models / codegen.parser model classes")
@@ -681,16 +693,40 @@ def generated_modules(ctx):
     mk = lambda r: None if r is None else I.call(VR, [r[0], r[1]], {}, Run(), None)
     inside = lambda r, v: r is not None and r[0] <= v <= r[1]
 
+    def model(cls, attrs):
+        """An instance of a pydantic model class: the given attributes plus the declared defaults of every other field."""
+        full = {}
+        for c in reversed([c for c in cls.mro if isinstance(c, ClassV)]):
+            anns = c.ns.get("__annotations__")
+            for fname in (anns.d if isinstance(anns, DictV) else {}):
+                if fname in c.ns and not isinstance(c.ns[fname], (FuncV, WrapV)) and not fname.startswith("_"):
+                    full[fname] = c.ns[fname]
+        full.update(attrs)
+        return InstV(cls, full)
+
+    structs = {}
+
+    def build_struct(sd):
+        if sd["name"] not in structs:
+            structs[sd["name"]] = model(need["CommonStruct"], {"name": sd["name"], "versions": mk(sd["versions"]),
+                                                               "fields": tuple(build(x) for x in sd["fields"])})
+        return structs[sd["name"]]
+
     def build(f):
         base = {"name": f["name"], "versions": mk(f["versions"]), "nullableVersions": mk(f.get("nullableVersions")),
                 "ignorable": f.get("ignorable", False), "mapKey": False, "about": None, "entityType": None,
                 "tag": f.get("tag"), "taggedVersions": mk(f.get("taggedVersions"))}
         if f["kind"] == "prim":
-            return InstV(need["PrimitiveField"], dict(base, type=by_value[f["type"]], default=f.get("default")))
+            return model(need["PrimitiveField"], dict(base, type=by_value[f["type"]], default=f.get("default")))
+        if f["kind"] in ("cstruct", "carray"):
+            st = build_struct(f["struct"])
+            if f["kind"] == "cstruct":
+                return model(need["CommonStructField"], dict(base, type=I.call(need["CommonStructType"], [st], {}, Run(), None), default=None))
+            return model(need["CommonStructArrayField"], dict(base, type=I.call(need["CommonStructArrayType"], [st], {}, Run(), None)))
         sub = tuple(build(x) for x in f["fields"])
         if f["kind"] == "array":
-            return InstV(need["EntityArrayField"], dict(base, type=I.call(need["EntityArrayType"], [f["type"]], {}, Run(), None), fields=sub))
-        return InstV(need["EntityField"], dict(base, type=I.call(need["EntityType"], [f["type"]], {}, Run(), None), fields=sub, default=None))
+            return model(need["EntityArrayField"], dict(base, type=I.call(need["EntityArrayType"], [f["type"]], {}, Run(), None), fields=sub))
+        return model(need["EntityField"], dict(base, type=I.call(need["EntityType"], [f["type"]], {}, Run(), None), fields=sub, default=None))
 
     rows = []
     for d in synthetic_definitions():
@@ -700,8 +736,10 @@ def generated_modules(ctx):
                 h.items.clear()
             elif isinstance(h, DictV):
                 h.d.clear()
-        schema = InstV(need["MessageSchema"], {"name": d["name"], "type": d["type"], "apiKey": d["apiKey"], "validVersions": mk(d["validVersions"]),
-                                               "flexibleVersions": mk(d["flexibleVersions"]), "fields": tuple(build(f) for f in d["fields"])})
+        structs.clear()
+        schema = model(need["MessageSchema"], dict({"name": d["name"], "type": d["type"], "apiKey": d["apiKey"], "validVersions": mk(d["validVersions"]),
+                                                    "flexibleVersions": mk(d["flexibleVersions"]), "fields": tuple(build(f) for f in d["fields"])},
+                                                   **d.get("extra", {})))
         try:
             out = I.call(gm, [schema], {}, Run(), None)
             items = I.iterate_concrete(out, Run(), None)
@@ -761,6 +799,10 @@ def generated_modules(ctx):
                         ann = hint + ("|None" if opt and "None" not in hint else "")
                     elif f["kind"] == "array":
                         ann = f"tuple[{f['type']},...]" + ("|None" if nullable else "")
+                    elif f["kind"] == "carray":
+                        ann = f"tuple[{f['struct']['name']},...]" + ("|None" if nullable else "")
+                    elif f["kind"] == "cstruct":
+                        ann = f["struct"]["name"] + ("|None" if nullable else "")
                     else:
                         ann = f["type"] + ("|None" if nullable else "")
                     out_.append((name, ann.replace(" ", ""), 0 if not tagged else f["tag"], tagged, f))
@@ -804,20 +846,33 @@ def generated_modules(ctx):
                     problems.append(f"decorator {decos}")
                 rows.append({"ok": not problems, "case": tag, "message": f"{tag}: " + "; ".join(problems)})
 
+            done_cls = set()
+
             def walk(fields):
                 for f in fields:
-                    if f["kind"] in ("array", "struct") and inside(f["versions"], v):
+                    if not inside(f["versions"], v):
+                        continue
+                    if f["kind"] in ("array", "struct"):
                         walk(f["fields"])
                         check_class(f["type"], f["fields"], False)
+                    elif f["kind"] in ("cstruct", "carray") and f["struct"]["name"] not in done_cls:
+                        done_cls.add(f["struct"]["name"])
+                        walk(f["struct"]["fields"])
+                        check_class(f["struct"]["name"], f["struct"]["fields"], False)
             walk(d["fields"])
             check_class(d["name"], d["fields"], True)
             want_order = []
 
             def order_of(fields):
                 for f in fields:
-                    if f["kind"] in ("array", "struct") and inside(f["versions"], v):
+                    if not inside(f["versions"], v):
+                        continue
+                    if f["kind"] in ("array", "struct"):
                         order_of(f["fields"])
                         want_order.append(f["type"])
+                    elif f["kind"] in ("cstruct", "carray") and f["struct"]["name"] not in want_order:
+                        order_of(f["struct"]["fields"])
+                        want_order.append(f["struct"]["name"])
             order_of(d["fields"])
             want_order.append(d["name"])
             rows.append({"ok": order == want_order, "case": f"{d['name']} v{v} classes",
